@@ -503,6 +503,7 @@ class Runner(IOOpsMixin):
             cfg.setdefault("output", {})[base] = []
             h.eff_output[base] = []
         self.probe("mutate_config")
+        h.read_digests.pop(("calc", "config"), None)    # the client changed its own config: a later read legitimately differs
         return {}
 
     # -- writing ------------------------------------------------------------------
